@@ -1,9 +1,10 @@
 from .common import *
 import re
-EXPL = 'EXACT: Generator(i) equals the documented basis matrix, hat = sum t_i G_i, Vee(hat t)=t, hat(Bracket(a,b)) = [hat a, hat b], antisymmetry, Jacobi, bilinearity, inner = Frobenius product, W symmetric, a^T W a >= |a|^2 (positive definite), weightedNorm^2 = squaredWeightedNorm; Generator(i) raises for the out-of-range indices -1, DoF, DoF+1, INT_MAX, INT_MIN; symbolic tangents, decided per entry by z3 over the DAG of the real templates.' + ' Generator(i): for every 32-bit index value the LLVM-IR control flow of the real function raises iff i >= DoF (bit-vector SMT).'
+EXPL = 'EXACT: Generator(i) equals the documented basis matrix, hat = sum t_i G_i, Vee(hat t)=t, hat(Bracket(a,b)) = [hat a, hat b], antisymmetry, Jacobi, bilinearity, inner = Frobenius product, W symmetric, a^T W a >= |a|^2 (positive definite), weightedNorm^2 = squaredWeightedNorm; the same inner-product claims in a process that used the InnerWeights of every other tangent type first (separate binary per group: no dependence on the call history); Generator(i) raises for the out-of-range indices -1, DoF, DoF+1, INT_MAX, INT_MIN; symbolic tangents, decided per entry by z3 over the DAG of the real templates.' + ' Generator(i): for every 32-bit index value the LLVM-IR control flow of the real function raises iff i >= DoF (bit-vector SMT).'
 def run(tier, a=None):
     specs = [{'src': 'h_c07.cpp', 'defs': ['TAG=' + t]} for t in tags(tier)]
     specs += [{'src': 'h_c07.cpp', 'defs': ['TAG=Bnd<R1t,SO3t,SE2t>', 'ONLY_GENIDX'], 'filter': 'c07_genidx.*'}, {'src': 'h_c07.cpp', 'defs': ['TAG=Bnd<SE3t,R3t>', 'ONLY_GENIDX'], 'filter': 'c07_genidx.*'}]
+    specs += [{'src': 'h_c07.cpp', 'defs': ['TAG=' + t, 'HISTORY'], 'filter': 'c07_inner_history.*'} for t in tags(tier)]
     import props.common as pc
     _o = pc.opts
     pc.opts = lambda tier, a=None: dict(_o(tier, a), approx_ok=False)
